@@ -177,6 +177,9 @@ OwnShareMatches == \A p \in Parties : Done(p) => x[p] = bigX[p][p]
 OnePolynomial ==
   \A p \in Parties : Done(p) =>
      \E f \in [Coef -> Zq] : f[1] = y[p] /\ \A k \in 1..N : bigX[p][k] = Eval(f, Ids[k])
+(* the same statement with the witness polynomial given (the sum of the published commitments): no search *)
+OnePolynomialC ==
+  \A p \in Parties : Done(p) => (Vc(p)[1] = y[p] /\ \A k \in 1..N : bigX[p][k] = Eval(Vc(p), Ids[k]))
 NoContributionDropped == \A p \in Parties : (Done(p) /\ Honest) => y[p] = Key
 AllDone == \A p \in Parties : Done(p)
 AnySubsetReconstructs ==
